@@ -2333,6 +2333,8 @@ TABLES = {
 sys.path.insert(0, os.path.dirname(os.path.abspath(__file__)))
 import tables_c04  # noqa: E402
 TABLES.update(tables_c04.tables(globals()))
+import tables_c02  # noqa: E402
+TABLES.update(tables_c02.tables(globals()))
 
 
 def main():
